@@ -326,6 +326,12 @@ where
                             return Err(e);
                         }
                         Ok(size) => {
+                            if size == 0 {
+                                // a sink that accepts nothing is an error, not a reason to spin
+                                BrotliEncoderDestroyInstance(s);
+                                read_err?;
+                                return Err(unexpected_eof_error_constant);
+                            }
                             next_out_offset += size;
                         }
                     }
